@@ -2574,9 +2574,11 @@ BD_Shape<T>::simplify_using_context_assign(const BD_Shape& y) {
   // (this subsumes the case when `y' is empty).
   y.shortest_path_closure_assign();
   if (x.contains(y)) {
+    // The intersection of `x' and `y' is `y' (which may alias `x').
+    const bool bool_result = !y.is_empty();
     BD_Shape<T> res(dim, UNIVERSE);
     x.m_swap(res);
-    return false;
+    return bool_result;
   }
 
   // Filter away the case where `x' is empty.
